@@ -12,8 +12,14 @@ import (
 	"verif/core"
 )
 
+var harnessDir = func() string {
+	if r := os.Getenv("VERIF_ROOT"); r != "" {
+		return filepath.Join(r, "harness")
+	}
+	return "/verif/harness"
+}()
+
 const (
-	harnessDir   = "/verif/harness"
 	converterPkg = "github.com/database64128/shadowsocks-go/cmd/shadowsocks-go-domain-set-converter"
 )
 
